@@ -56,6 +56,7 @@ type Contract struct {
 	Line     int
 	NoPanic  bool
 	Opts     map[string]string
+	Cases    []*Clause
 }
 
 type ContractSet struct {
@@ -70,7 +71,7 @@ func NewContractSet() *ContractSet {
 
 var clauseKW = map[string]bool{"func": true, "extern": true, "requires": true, "ensures": true, "invariant": true, "decreases": true,
 	"modifies": true, "loop": true, "returns": true, "let": true, "lemmas": true, "reveal": true, "field": true, "modes": true,
-	"property": true, "assert": true, "pure": true, "trusted": true, "package": true, "unroll": true, "nopanic": true, "opt": true, "havoc": true, "end": true, "shape": true}
+	"property": true, "assert": true, "pure": true, "trusted": true, "package": true, "unroll": true, "nopanic": true, "opt": true, "havoc": true, "end": true, "shape": true, "cases": true}
 
 var kwRe = regexp.MustCompile(`^([a-z]+)(\[[AH]\])?(@\S+)?(\s|$)`)
 
@@ -99,6 +100,10 @@ func (cs *ContractSet) ParseContractLines(lines []rawLine, defPkg string, file s
 		if m != nil && clauseKW[m[1]] {
 			mode := strings.Trim(m[2], "[]")
 			anchor := strings.TrimPrefix(m[3], "@")
+			if strings.HasSuffix(anchor, "[A]") || strings.HasSuffix(anchor, "[H]") {
+				mode = anchor[len(anchor)-2 : len(anchor)-1]
+				anchor = anchor[:len(anchor)-3]
+			}
 			stmts = append(stmts, stmt{m[1], mode, anchor, strings.TrimSpace(t[len(m[0]):]), l.line})
 		} else {
 			if len(stmts) == 0 {
@@ -219,6 +224,17 @@ func (cs *ContractSet) ParseContractLines(lines []rawLine, defPkg string, file s
 				curLoop.Shapes[fs[0]] = fs[1]
 			} else {
 				cur.Opts["shape "+fs[0]] = fs[1]
+			}
+		case "cases":
+			for _, part := range strings.Split(s.rest, "|") {
+				if strings.Contains(part, "||") {
+					return fmt.Errorf("%s: use | to separate cases", where)
+				}
+				e, err := ParseCExpr(strings.TrimSpace(part))
+				if err != nil {
+					return fmt.Errorf("%s: %v", where, err)
+				}
+				cur.Cases = append(cur.Cases, &Clause{Kind: "case", Expr: e, Text: strings.TrimSpace(part), Line: s.line})
 			}
 		case "returns":
 			cur.Returns = s.rest
